@@ -651,7 +651,23 @@ static int judge_ms(const unsigned char *pk, long n, long nl, int ns, int dopad,
    jline_pk(dopad ? "mspad" : "msunpad", pk, n, args);
    for (s2 = 0; valid && s2 < ns; s2++) { opus_int32 po = 0; int sd = s2 != ns - 1;
       if (n - off < 1 || opus_packet_parse_impl(pk + off, (opus_int32)(n - off), sd, &tc, f, s, NULL, &po, NULL, NULL) < 1) valid = 0; else off += po; }
-   if (!valid) return 0;   /* invalid multistream packets: only the correspondence (and ASan) applies */
+   if (!valid) {            /* not n-1 self-delimited + one standard valid packet: refused, and pad leaves the buffer alone */
+      if (n < 1 || ns < 1) return 0;
+      if (dopad) sprintf(args, " %ld %d", nl, ns); else sprintf(args, " %d", ns);
+      if (dopad) {
+         if (nl <= n) return 0;
+         memset(ja, GB, nl + GUARD); memcpy(ja, pk, n);
+         ret = opus_multistream_packet_pad(ja, (opus_int32)n, (opus_int32)nl, ns);
+         if (ret != OPUS_INVALID_PACKET && ret != OPUS_BAD_ARG) { sprintf(obs, "mspad=%s", verr(ret)); wit_pk("mspad-invalid", "mspad", pk, n, args, "bytes that are not a multistream packet are refused (INVALID_PACKET, or BAD_ARG when no last stream is left)", obs); return 1; }
+         if (memcmp(ja, pk, n)) { wit_pk("mspad-invalid", "mspad", pk, n, args, "a refused multistream pad leaves the buffer untouched", "modified"); return 1; }
+         for (s2 = 0; s2 < GUARD; s2++) if (ja[nl + s2] != GB || (s2 < nl - n && ja[n + s2] != GB)) { wit_pk("mspad-guard", "mspad", pk, n, args, "a refused multistream pad writes nothing", "bytes after len modified"); return 1; }
+      } else {
+         memcpy(jb, pk, n); ret = opus_multistream_packet_unpad(jb, (opus_int32)n, ns);
+         if (ret != OPUS_INVALID_PACKET) { sprintf(obs, "msunpad=%s", verr(ret)); wit_pk("msunpad-invalid", "msunpad", pk, n, args, "bytes that are not a multistream packet are refused with INVALID_PACKET", obs); return 1; }
+      }
+      if (classes) classes[14]++;
+      return 0;
+   }
    if (dopad) {
       int anyext = 0; off = 0;
       sprintf(args, " %ld %d", nl, ns);
@@ -700,9 +716,9 @@ static void prop_pad(vrng *r, long *classes)
       judge_unpad(pk, n, classes);
    } else {
       int ns = vrange(r, 1, 8);
-      n = gen_ms(r, pk, ns, !vchance(r, 5));
+      n = gen_ms(r, pk, ns, !vchance(r, 20));
       nl = n + (vchance(r, 10) ? -1 : vchance(r, 50) ? vrange(r, 1, 12) : vrange(r, 250, 600));
-      judge_ms(pk, n, nl, ns, 1, classes);
+      if (vchance(r, 70)) judge_ms(pk, n, nl, ns, 1, classes); else judge_ms(pk, n, n, vchance(r, 85) ? ns : vrange(r, 1, 9), 0, classes);
    }
 }
 
@@ -712,7 +728,7 @@ static void run_prop(uint64_t seed, long cases)
    r.s = seed;
    for (c = 0; c < cases; c++) { if (vchance(&r, 55)) prop_seq(&r, classes); else prop_pad(&r, classes); }
    for (i = 0; i < 16; i++) if (classes[i]) dist++;
-   printf("P cases=%ld distinct=%ld witnesses=%ld classes(out 1/2/3+ frames, same with extensions, bad-arg, -, pad by input code 0..3, ms 1/n streams)=", cases, dist, nwit);
+   printf("P cases=%ld distinct=%ld witnesses=%ld classes(out 1/2/3+ frames, same with extensions, bad-arg, -, pad by input code 0..3, ms 1/n streams, ms rejected)=", cases, dist, nwit);
    for (i = 0; i < 16; i++) printf("%s%ld", i ? "," : "", classes[i]);
    printf("\n");
 }
